@@ -102,6 +102,11 @@ def shapes(rs: dict) -> list[str]:
                     multi = True
     if multi:
         out.append("multi_exit_loop")
+    # a test whose target is the op right behind it (an if with an empty block: both outcomes continue at the same place)
+    for r in rs["ops"]:
+        if any(a["name"].startswith("Branch") and a["params"] and a["params"][-1] == b["off"] for a, b in zip(r, r[1:])):
+            out.append("empty_test")
+            break
     if rs.get("_unreachable"):
         out.append("unreachable_ops")
     if back:
@@ -123,6 +128,8 @@ def first_kind(rs: dict, stage: str) -> str:
         return "decompiled_wrong:call_in_cyclic_flow"
     if "routine_starts_with_jump" in sh and "complex_loop" in sh:
         return "decompiled_wrong:starts_with_jump_into_complex_loop"
+    if "empty_test" in sh and "complex_loop" in sh:
+        return "decompiled_wrong:empty_test_in_complex_loop"
     if "multi_exit_loop" in sh and "test_falls_into_join" in sh:
         return "decompiled_wrong:multi_exit_loop"
     if "has_call_op" in sh and "cross_routine_jump" in sh and "switch_fallthrough" in sh:
